@@ -439,6 +439,7 @@ def run(ctx):
                   'GD+coverage')
     shared.affected_walk_stops(ctx, r9)
     shared.affected_tasks_cover_completed(ctx, r9)
+    shared.refresh_covers_unfinished(ctx, r9)
 
     # ---- R11 the lock primitives the create-once rule relies on ------------------
     r11 = ctx.rule('R11', 'named_lock inserts a uniquely named row at once, '
